@@ -2202,7 +2202,9 @@ class C17(Prop):
                     break
             # (the two trees run in lockstep: a failing mutation is not applied to the complete tree either; only a
             # slice assignment that fails in the middle makes them diverge)
-            if not a.startswith('ok') and (c or '').startswith('ok') and op[0] == 'sets':
+            if not a.startswith('ok') and op[0] == 'sets':
+                # (also when the slice assignment fails on the complete tree too: it may have failed LATER there,
+                # with more of its items written)
                 diverged = True   # later results are compared with the model only
             # correspondence with the model (which is proved to fail only where an excluded subtree is needed)
             am = a if a.startswith('ok') else 'err'
